@@ -18,7 +18,7 @@ THEOREMS = ["C07_initial", "C07_invariant", "C07_last_update_step", "C07_last_up
             "C07_expire", "C07_expiry_boundary", "C07_expire_history", "C07_restart_reset_query", "C07_stop", "C07_others",
             "C07_failed_sync_keeps_timestamp", "C07_interrupted_reload_example"]
 
-HOWS = ["err", "close", "timeout", "mal:len_small", "mal:len_big", "mal:len_type", "mal:type", "mal:version", "mal:flags",
+HOWS = ["err", "close", "timeout", "intr", "mal:len_small", "mal:len_big", "mal:len_type", "mal:type", "mal:version", "mal:flags",
         "mal:plen", "unexpected", "stop"]
 
 
@@ -82,7 +82,7 @@ def build(rnd, p):
         c.cache.mutate()
         ok = c.cut(p["k"], p["how"], partial=p["partial"])
     elif ok:
-        ok = c.cut(0, p["how"] if p["how"] in ("err", "close", "timeout") else "err")
+        ok = c.cut(0, p["how"] if p["how"] in ("err", "close", "timeout", "intr") else "err")
     if ok:
         c.fail_opens(j - 1 + rnd.choice([0, 0, 1, 2]))
         if p["scen"] == "twice":
